@@ -2,6 +2,9 @@ import DryocVerif.Model.TypeState
 import DryocVerif.Model.Protected
 import DryocVerif.Proofs.TypeStateBridge
 import DryocVerif.Proofs.TypeStateTable
+import DryocVerif.Proofs.ProtectedErrExtra
+import DryocVerif.Model.ProtectedTouch
+import DryocVerif.Proofs.ProtectedTouch
 /-
 C20 — safe code cannot request an access the current state forbids.
 
@@ -309,7 +312,7 @@ region other than `Unlocked` read-write (`Zeroize::zeroize(&mut self)` is now a 
 effect; it is the one safe call that makes marker and pages disagree, see the end of this file). -/
 
 /-- (hypothesis `hz : op ≠ .zeroize` new, as in `permitted_access_no_segv`) -/
-theorem permitted_access_no_segv_reachable (c : Cfg) (hP : 0 < c.P) (oracle : Nat → Bool) (toks : List Tok)
+theorem permitted_access_no_segv_reachable (c : Cfg) (hP : 0 < c.P) (oracle : Nat → Model.Protected.LockAns) (toks : List Tok)
     (hz : NoProtZeroize c (State.init oracle) toks) (i : Nat) (sl : Slot) (hi : (runState c (State.init oracle) toks).slots[i]? = some sl)
     (hg : sl.gone = false) (pm : PM) (lm : LM) (ct : Cont)
     (hst : sl.o.st = .prot (convLM lm) (convPM pm)) (op : Op) (hzo : op ≠ .zeroize)
@@ -320,7 +323,7 @@ theorem permitted_access_no_segv_reachable (c : Cfg) (hP : 0 < c.P) (oracle : Na
   permitted_access_no_segv c hP (resetRel (runState c (State.init oracle) toks))
     (inv_runState hP toks (inv_init c oracle) hz).resetRel i sl hi hg pm lm ct hst op hzo hperm off hoff
 
-theorem forbidden_access_segv_reachable (c : Cfg) (hP : 0 < c.P) (oracle : Nat → Bool) (toks : List Tok)
+theorem forbidden_access_segv_reachable (c : Cfg) (hP : 0 < c.P) (oracle : Nat → Model.Protected.LockAns) (toks : List Tok)
     (hz : NoProtZeroize c (State.init oracle) toks) (i : Nat) (sl : Slot) (hi : (runState c (State.init oracle) toks).slots[i]? = some sl)
     (hg : sl.gone = false) (pm : PM) (lm : LM) (ct : Cont)
     (hst : sl.o.st = .prot (convLM lm) (convPM pm)) (off : Nat) (hoff : off < sl.o.v.len) :
@@ -340,7 +343,11 @@ harness token of the same name answers `ok` and the slot is then in the table's 
 `next pm lm op` with the same container (and some runtime record `rc'`; that it is the one of the successor
 state is `C14.rec_tracks_type`) — or, for `lock` only, `err` and the slot is consumed; if
 the table does NOT offer it (`lock`, `na` on a locked region) the model answers `n/a` and nothing
-changes.  (No invariant needed.)  STATEMENT CHANGED: the region now carries a runtime record (`∃ rc'`). -/
+changes.  (No invariant needed.)  STATEMENT CHANGED: the region now carries a runtime record (`∃ rc'`).
+NOTE on `permits … .lock` for `pm = NoAccess`: the table offers the transition (`impl Lock for Protected<A, PM,
+Unlocked>` is generic in `PM`) and its successor would be `(NoAccess, Locked)`, but on a NON-EMPTY region the kernel
+model never gets there: `mlock(2)` cannot populate `PROT_NONE` pages, so the `err` alternative above is the one that
+happens, whatever the oracle answers — `lock_na_errs` below. -/
 theorem transitions_follow_table (c : Cfg) (s : State) (i : Nat) (sl : Slot)
     (hi : s.slots[i]? = some sl) (hg : sl.gone = false) (pm : PM) (lm : LM) (ct : Cont)
     (hst : sl.o.st = .prot (convLM lm) (convPM pm)) (op : Op) (k : Model.Protected.Op)
@@ -352,6 +359,33 @@ theorem transitions_follow_table (c : Cfg) (s : State) (i : Nat) (sl : Slot)
         (op = .lock ∧ step c s ⟨k, i⟩ = (.err, setSlot (resetRel s) m' i { sl with gone := true }))) ∧
     (permits pm lm ct op = false → step c s ⟨k, i⟩ = (.na, resetRel s)) :=
   ⟨trans_live hi hg ct hst op k hk, trans_forbidden_na hi hg ct hst op k hk⟩
+
+/-- **`lock` of a non-empty `NoAccess` region always answers `err`** (state satisfying the invariant of C14, ANY
+oracle): the state `(NoAccess, Locked)` which the table's `next` names is unreachable in the kernel model for a
+non-empty region. -/
+theorem lock_na_errs (c : Cfg) (hP : 0 < c.P) (s : State) (h : Inv c s) (i : Nat) (sl : Slot)
+    (hi : s.slots[i]? = some sl) (hg : sl.gone = false) (hl : 0 < sl.o.v.len)
+    (hst : sl.o.st = .prot .unlocked .na) : (step c s ⟨.lock, i⟩).1 = .err :=
+  DryocVerif.Proofs.Protected.lock_na_errs hP h hi hg hl hst
+
+/-- non-vacuity witness (`lock_na_errs`): `new; lock; unlock; na` gives a live non-empty `NoAccess` region; `lock`
+answers `err` with a granting oracle -/
+example :
+    let c : Cfg := { P := 4096, isArr := false, n := 16 }
+    let s := runState c (Model.Protected.State.init fun _ => true) [⟨.new, 0⟩, ⟨.lock, 0⟩, ⟨.unlock, 0⟩, ⟨.na, 0⟩]
+    (∃ sl, s.slots[0]? = some sl ∧ sl.gone = false ∧ 0 < sl.o.v.len ∧ sl.o.st = .prot .unlocked .na) ∧
+    (step c s ⟨.lock, 0⟩).1 = .err := by
+  refine ⟨⟨_, rfl, ?_⟩, ?_⟩ <;> decide
+
+/-- **the real operations behind the table's rows do not fault either** (bridge to `C14.step_no_segv`): the
+theorems of this file replace `clone`, `resize`, `copyFrom`, … by a probe at one byte; the harness tokens that run
+the REAL operation — `clone`, `clonefrom`, `resize`, `fill`, `zeroize`, `drop`, the five transitions, the
+constructors — perform only byte accesses that land on pages allowing them, in every state satisfying the
+invariant of C14 (`stepTouchesOk`: `Model/ProtectedTouch.lean`).  For `zeroize` this is not a contradiction with
+`zeroize_not_sound`: the method first makes the pages writable. -/
+theorem real_ops_no_segv (c : Cfg) (hP : 0 < c.P) (s : State) (h : Inv c s) (t : Tok)
+    (hnp : Model.Protected.isProbe t.op = false) : Model.Protected.stepTouchesOk c s t = true :=
+  DryocVerif.Proofs.Protected.touches_step hP h t hnp
 
 /-! ### programs -/
 
@@ -391,7 +425,7 @@ theorem well_typed_no_segv (c : Cfg) (hP : 0 < c.P) (ct : Cont) (i off : Nat) (p
 
 /-- … in particular from every reachable state (the slot may even be consumed already: then every
 token answers `n/a`) -/
-theorem well_typed_no_segv_reachable (c : Cfg) (hP : 0 < c.P) (oracle : Nat → Bool) (toks : List Tok)
+theorem well_typed_no_segv_reachable (c : Cfg) (hP : 0 < c.P) (oracle : Nat → Model.Protected.LockAns) (toks : List Tok)
     (hz : NoProtZeroize c (State.init oracle) toks) (ct : Cont) (i off : Nat) (sl : Slot) (pm : PM) (lm : LM)
     (hi : (runState c (State.init oracle) toks).slots[i]? = some sl)
     (hst : sl.o.st = .prot (convLM lm) (convPM pm)) (hoff : off < sl.o.v.len)
